@@ -30,7 +30,8 @@ LEVEL = "model_checking"
 RULE = (
     "check/parse: 7 grammar sources x 10 constraint sources x 11 input sources (x output flags for parse); solve: grammar x constraint x "
     "{-n, --tree, -d}; repair/mutate: 3 x 3 x 5; pipelines solve->check (stdout lines, -d files, --tree JSON) and parse->check over two "
-    "grammars (one whose words end in a newline); one real-process run per contract class; a schema is (command, expected class); non-trivial "
+    "grammars (one whose words end in a newline); layouts: check/parse x 2 grammar files x 2 constraint sources x 4 inputs x {all orders of the "
+    "positional files, with and without a grammar-less extension file; 6 further input file names containing .py/.bnf/.isla in the middle}; one real-process run per contract class; a schema is (command, expected class); non-trivial "
     "iff at least two different exit codes were demanded for the command"
 )
 ASSUMPTIONS = [
@@ -56,7 +57,7 @@ CUNSAT = ("and", C2, ("not", C2))
 
 GRAMMAR_SRC = ["bnf-ok", "bnf-malformed", "bnf-empty", "grammar-opt", "py-ok", "py-no-grammar", "missing"]
 CONSTR_SRC = ["file-c1", "file-unsat", "malformed", "unknown-type", "unknown-xpath-child", "empty-file", "c-once", "c-twice", "file+c", "missing"]
-INPUT_SRC = ["file-valid", "file-valid-no-newline", "file-syntax-invalid", "file-violating", "file-empty", "file-json-tree", "file-json-invalid-tree", "i-string", "i-empty", "two-inputs", "missing"]
+INPUT_SRC = ["file-valid", "file-valid-no-newline", "file-syntax-invalid", "file-violating", "file-empty", "file-json-tree", "file-json-tree-newline", "file-json-invalid-tree", "i-string", "i-empty", "two-inputs", "missing"]
 
 
 class _Argv(list):
@@ -77,9 +78,15 @@ class _Argv(list):
         return self.opts + self.files
 
 
-def build(d, gsrc, csrc, isrc):
-    """writes files into d, returns (argv tail, description dict with grammar_ok, constraints list, input string or None, problems set)"""
+def build(d, gsrc, csrc, isrc, iname=None, ext=False):
+    """writes files into d, returns (argv tail, description dict with grammar_ok, constraints list, input string or None, problems set);
+    iname: name of the input file (relative to d, may contain a directory); ext: also pass a Python extension file without a grammar"""
     argv = _Argv()
+    if iname and os.path.dirname(iname):
+        os.makedirs(os.path.join(d, os.path.dirname(iname)), exist_ok=True)
+    if ext:
+        _w(d, "ext.py", "def predicates():\n    return set()\n")
+        argv.append(os.path.join(d, "ext.py"))
     problems = set()
     iproblems = set()
     gram_ok = True
@@ -150,32 +157,36 @@ def build(d, gsrc, csrc, isrc):
     inp = None
     tree_json = lambda w: json.dumps(_parse_tree(w))
     if isrc == "file-valid":
-        _w(d, "in.txt", "x := 1\n")
-        argv.append(os.path.join(d, "in.txt"))
+        _w(d, (iname or "in.txt"), "x := 1\n")
+        argv.append(os.path.join(d, (iname or "in.txt")))
         inp = "x := 1"
     elif isrc == "file-valid-no-newline":
-        _w(d, "in.txt", "x := 1")
-        argv.append(os.path.join(d, "in.txt"))
+        _w(d, (iname or "in.txt"), "x := 1")
+        argv.append(os.path.join(d, (iname or "in.txt")))
         inp = "x := 1"
     elif isrc == "file-syntax-invalid":
-        _w(d, "in.txt", "x := \n")
-        argv.append(os.path.join(d, "in.txt"))
+        _w(d, (iname or "in.txt"), "x := \n")
+        argv.append(os.path.join(d, (iname or "in.txt")))
         inp = "x := "
     elif isrc == "file-violating":
-        _w(d, "in.txt", "y := 0\n")
-        argv.append(os.path.join(d, "in.txt"))
+        _w(d, (iname or "in.txt"), "y := 0\n")
+        argv.append(os.path.join(d, (iname or "in.txt")))
         inp = "y := 0"
     elif isrc == "file-empty":
-        _w(d, "in.txt", "")
-        argv.append(os.path.join(d, "in.txt"))
+        _w(d, (iname or "in.txt"), "")
+        argv.append(os.path.join(d, (iname or "in.txt")))
         inp = ""
     elif isrc == "file-json-tree":
-        _w(d, "in.json", tree_json("x := 1 ; x := 0"))
-        argv.append(os.path.join(d, "in.json"))
+        _w(d, (iname or "in.json"), tree_json("x := 1 ; x := 0"))
+        argv.append(os.path.join(d, (iname or "in.json")))
+        inp = "x := 1 ; x := 0"
+    elif isrc == "file-json-tree-newline":  # what `isla solve --tree > in.json` or `isla parse > in.json` leaves
+        _w(d, (iname or "in.json"), tree_json("x := 1 ; x := 0") + "\n")
+        argv.append(os.path.join(d, (iname or "in.json")))
         inp = "x := 1 ; x := 0"
     elif isrc == "file-json-invalid-tree":
-        _w(d, "in.json", json.dumps(["<start>", [["<stmt>", [["<var>", [["x", []]]]]]]]))
-        argv.append(os.path.join(d, "in.json"))
+        _w(d, (iname or "in.json"), json.dumps(["<start>", [["<stmt>", [["<var>", [["x", []]]]]]]]))
+        argv.append(os.path.join(d, (iname or "in.json")))
         inp = "@invalid-tree"
     elif isrc == "i-string":
         argv += ["-i", "x := 0 ; x := 1"]
@@ -184,9 +195,9 @@ def build(d, gsrc, csrc, isrc):
         argv += ["-i", ""]
         inp = "@i-empty"
     elif isrc == "two-inputs":
-        _w(d, "in.txt", "x := 1\n")
+        _w(d, (iname or "in.txt"), "x := 1\n")
         _w(d, "in2.txt", "x := 0\n")
-        argv.append(os.path.join(d, "in.txt"))
+        argv.append(os.path.join(d, (iname or "in.txt")))
         argv.append(os.path.join(d, "in2.txt"))
         iproblems.add(2)
     else:
@@ -390,6 +401,43 @@ def pipeline_chunk(r, which, tier):
     r.sample({"part": "pipelines", "grammar": which})
 
 
+INAMES = ["in.txt", "in", "in.py.txt", "in.bnf.txt", "in.isla.txt", "out.isla.d/0.txt", "a.py.d/in"]
+
+
+def layouts_for(tier):
+    """(command, grammar, constraint, input, input file name, extension file?, order): order is a permutation of the positional files"""
+    out = []
+    for command, g, c, i in itertools.product(("check", "parse"), ("bnf-ok", "py-ok"), ("file-c1", "file+c"), ("file-valid", "file-violating", "file-syntax-invalid", "file-json-tree-newline")):
+        for ext in (False, True):
+            n = 3 + ext
+            for perm in itertools.permutations(range(n)):
+                out.append((command, g, c, i, "in.txt", ext, perm))
+        for iname in INAMES[1:]:
+            out.append((command, g, c, i, iname, False, (0, 1, 2)))
+            out.append((command, g, c, i, iname, False, (2, 1, 0)))
+    return out
+
+
+def layout_chunk(r, layouts):
+    """the verdict of check/parse does not depend on the order of the positional files, on the name of the input file (unless it ends in
+    .bnf/.isla/.py) or on an additional extension file that defines no grammar"""
+    for command, g, c, i, iname, ext, perm in layouts:
+        d = tempfile.mkdtemp(prefix="c19l_")
+        try:
+            tail, desc = build(d, g, c, i, iname=iname, ext=ext)
+            files = [x for x in tail if x.startswith(d + os.sep)]
+            opts = [x for x in tail if not x.startswith(d + os.sep)]
+            assert len(files) == len(perm), (files, perm)
+            argv = [command] + opts + [files[k] for k in perm]
+            acc = expected_check(desc, command)
+            order = ",".join(os.path.relpath(files[k], d) for k in perm)
+            r.state(command, g, c, i, iname, ext, perm)
+            judge(r, command, argv, run_cli(argv), acc, f"{command} [grammar={g}, constraint={c}, input={i}; files in the order {order}]",
+                  dict(kind="layout", command=command, g=g, c=c, i=i, iname=iname, ext=ext, perm=list(perm)))
+        finally:
+            shutil.rmtree(d, ignore_errors=True)
+
+
 REAL = [
     ("check", "bnf-ok", "file-c1", "file-valid", ()), ("check", "bnf-ok", "c-twice", "file-violating", ()), ("check", "bnf-ok", "file-c1", "file-syntax-invalid", ()),
     ("check", "bnf-malformed", "file-c1", "file-valid", ()), ("check", "bnf-ok", "malformed", "file-valid", ()), ("check", "missing", "file-c1", "file-valid", ()),
@@ -428,6 +476,9 @@ def chunks(tier, seed):
         per = 40 if command in ("check", "parse") else 8
         for i in range(0, len(C), per):
             out.append(dict(kind="combo", command=command, lo=i, hi=min(len(C), i + per), tier=tier))
+    L = layouts_for(tier)
+    for i in range(0, len(L), 60):
+        out.append(dict(kind="layout", lo=i, hi=min(len(L), i + 60), tier=tier))
     out.append(dict(kind="pipeline", which="assgn", tier=tier))
     out.append(dict(kind="pipeline", which="lines", tier=tier))
     out.append(dict(kind="real", tier=tier))
@@ -439,6 +490,9 @@ def run_chunk(chunk):
     if chunk["kind"] == "combo":
         combo_chunk(r, chunk["command"], combos_for(chunk["command"], chunk["tier"])[chunk["lo"]:chunk["hi"]], chunk["tier"])
         r.sample({"part": "combinations", "command": chunk["command"], "combinations": chunk["hi"] - chunk["lo"]}, limit=1)
+    elif chunk["kind"] == "layout":
+        layout_chunk(r, layouts_for(chunk["tier"])[chunk["lo"]:chunk["hi"]])
+        r.sample({"part": "file order / file name / extension file layouts", "layouts": chunk["hi"] - chunk["lo"]}, limit=1)
     elif chunk["kind"] == "pipeline":
         pipeline_chunk(r, chunk["which"], chunk["tier"])
     else:
@@ -450,6 +504,9 @@ def replay(case):
     r = Result(keep_all=True)
     if case["kind"] == "combo":
         combo_chunk(r, case["command"], [(case["g"], case["c"], case["i"], tuple(case["flags"]))], "quick")
+        return r.viols
+    if case["kind"] == "layout":
+        layout_chunk(r, [(case["command"], case["g"], case["c"], case["i"], case["iname"], case["ext"], tuple(case["perm"]))])
         return r.viols
     if case["kind"] == "pipeline":
         pipeline_chunk(r, case["which"], "quick")
